@@ -9,6 +9,7 @@ import (
 	"sort"
 	"sync"
 
+	"github.com/jhalter/mobius/verifexport"
 	"verifharness/sim"
 )
 
@@ -288,6 +289,15 @@ func runC07Request(world map[string]any, rq map[string]any) (map[string]any, err
 		tmpBefore = tmpState()
 		for _, o := range listOf(rq["ops"]) {
 			m, _ := o.(map[string]any)
+			if strOf(m["op"]) == "restart" {
+				// the real constructor on the directory the requests left behind; whether it starts is an observation
+				if _, err := verifexport.NewYAMLAccountManager(filepath.Join(sb.w.Config, "Users")); err != nil {
+					reps = append(reps, "fail")
+				} else {
+					reps = append(reps, "ok")
+				}
+				continue
+			}
 			r, err := acctOp(c, m)
 			if err != nil {
 				return nil, err
